@@ -55,7 +55,61 @@ theorem createNewHeader_ok {c : HdrCfg} {info : Extracted} {h : Text}
     by_cases hg : guardOk c info result = true
     · simp only [hg, if_true] at hok
       cases hok; exact ⟨rfl, hg⟩
-    · simp only [hg, if_false] at hok
+    · simp only [hg] at hok
       cases hok
+
+/-! ### the shape of what is written -/
+
+theorem placeHeader_shape (h b a : Text) (e : Bool) :
+    ∃ pre post, placeHeader h b a e = pre ++ h ++ ['\n'] ++ post ∧ (pre = [] ∨ ∃ p, pre = p ++ ['\n']) := by
+  unfold placeHeader
+  by_cases hb : (strip b).isEmpty = true <;> by_cases ha : (strip a).isEmpty = true
+  · exact ⟨[], [], by simp [hb, ha], .inl rfl⟩
+  · exact ⟨[], _, by simp only [hb, ha, if_true]; simp; rfl, .inl rfl⟩
+  · exact ⟨rstrip b ++ ['\n', '\n'], [], by simp [hb, ha], .inr ⟨rstrip b ++ ['\n'], by simp⟩⟩
+  · exact ⟨rstrip b ++ ['\n', '\n'], _, by simp only [hb, ha]; simp; rfl, .inr ⟨rstrip b ++ ['\n'], by simp⟩⟩
+
+theorem far_ok {c : HdrCfg} {info : Extracted} {text t : Text}
+    (h : findAndReplaceHeader c info text = .ok t) :
+    ∃ before header after nh e, createHeader c info header = .ok nh ∧ t = placeHeader nh before after e := by
+  unfold findAndReplaceHeader at h
+  simp only [bind, Except.bind] at h
+  split at h
+  · cases h
+  · rename_i v hv
+    simp only [pure, Except.pure, Except.ok.injEq] at h
+    exact ⟨_, _, _, v, _, hv, h.symm⟩
+
+theorem anh_ok {c : HdrCfg} {info : Extracted} {text t : Text}
+    (h : addNewHeader c info text = .ok t) :
+    ∃ before after nh e, createHeader c info [] = .ok nh ∧ t = placeHeader nh before after e := by
+  unfold addNewHeader at h
+  simp only [bind, Except.bind] at h
+  split at h
+  · cases h
+  · rename_i v hv
+    simp only [pure, Except.pure, Except.ok.injEq] at h
+    exact ⟨_, _, v, _, hv, h.symm⟩
+
+theorem annotateText_written {c : HdrCfg} {replace skip : Bool} {info : Extracted} {text t : Text}
+    (h : annotateText c replace skip info text = .written t) :
+    ∃ before header after nh e, createHeader c info header = .ok nh ∧
+      t = (if detectLineEnding text == ['\n'] then placeHeader nh before after e
+           else Py.replace (placeHeader nh before after e) ['\n'] (detectLineEnding text)) := by
+  unfold annotateText at h
+  split at h
+  · cases h
+  · simp only at h
+    split at h
+    · cases h
+    · rename_i t0 ht0
+      cases h
+      by_cases hr : replace = true
+      · simp only [hr, if_true] at ht0
+        obtain ⟨b, hd, a, nh, e, h1, h2⟩ := far_ok ht0
+        exact ⟨b, hd, a, nh, e, h1, by rw [h2]⟩
+      · simp only [hr] at ht0
+        obtain ⟨b, a, nh, e, h1, h2⟩ := anh_ok ht0
+        exact ⟨b, [], a, nh, e, h1, by rw [h2]⟩
 
 end Model
